@@ -24,11 +24,13 @@ structure DSt where
   q : List (List Float) := []
   cur : List Float := []
   batch : Nat := 10
+  restore : Bool := false     -- fix 09980379c (F36) present in the tree under test
+  degfix : Bool := false      -- fix 5852532a8 (F130) present in the tree under test
   ordQ : List (List Float × Unit) := []
 
 def init (ts : List String) : Option DSt :=
   match ts with
-  | "phs" :: _ => some {}
+  | "phs" :: rest => some { restore := rest.contains "restore=1", degfix := rest.contains "degfix=1" }
   | _ => none
 
 def takeVec (ts : List String) (n : Nat) : Option (List Float × List String) :=
@@ -174,7 +176,7 @@ def compInBounds (kind : String) (lo hi : Float) (st : List Float × List Float)
 def supCompound (st : DSt) (s : Sampler Float) (op : String) (mc : Option Float) (c : Float) (vals : List Float) : DSt × String :=
   if st.skind != "direct" then (st, "bad-op") else
   let rdim := if st.kind == "se2" then 1 else 4
-  let s' := s.update c
+  let s' := s.updateG st.restore c
   if s'.useBoundsBranch then ({ st with smp := some s' }, op ++ " bounds-branch")
   else if vals.length != s.numIters * (st.n + 3) + s.numIters * rdim then (st, "bad-op")
   else
@@ -185,8 +187,8 @@ def supCompound (st : DSt) (s : Sampler Float) (op : String) (mc : Option Float)
     let inB := compInBounds st.kind st.lo st.hi
     let cur : List Float × List Float := (st.cur, [])
     let r := match mc with
-      | none => s.sample2 inB true c ds cur
-      | some m => s.sample3 inB true m c ds cur
+      | none => s.sample2G st.restore st.degfix inB true c ds cur
+      | some m => s.sample3G st.restore st.degfix inB true m c ds cur
     let o := r.2
     let used := match mc with
       | none => o.iters
@@ -329,7 +331,7 @@ def step (st : DSt) (ts : List String) : DSt × String :=
       let phss := (pairs.zipIdx).map (fun (sg, i) => Phs.mk' i sg.1 sg.2 [])
       let smp : Sampler Float :=
         { phss := phss, summed := 0, numIters := ni, infMeasure := st.infMeas, unMeasure := st.unMeas,
-          spaceMeasure := st.totMeas }
+          spaceMeasure := st.totMeas, all := phss }
       ({ st with skind := skind, thr := thr, numIters := ni, smp := if direct then some smp else none, q := [],
                  batch := batch, ordQ := [],
                  cur := List.replicate st.n 0 },
@@ -344,8 +346,9 @@ def step (st : DSt) (ts : List String) : DSt × String :=
         | some (r, []) =>
           let cols := toCols p.dim r
           if hypOk p.dim p.f1 p.f2 cols && rot2Ok p.dim p.f1 p.f2 cols then
-            ({ st with smp := some { s with phss := s.phss.map (fun q => if q.id == k then { q with rot := cols } else q) } },
-              "rot hyp=1")
+            let setR := fun (q : Phs Float) => if q.id == k then { q with rot := cols } else q
+            let s2 : Sampler Float := { s with phss := s.phss.map setR, «all» := s.all.map setR }
+            ({ st with smp := some s2 }, "rot hyp=1")
           else (st, "rot hyp=0")
         | _ => (st, "bad-op")
       | none => (st, "bad-op")
@@ -353,7 +356,7 @@ def step (st : DSt) (ts : List String) : DSt × String :=
   | ["upd", c] =>
     match parseFloatBits? c, st.smp with
     | some c, some s =>
-      let s' := s.update c
+      let s' := s.updateG st.restore c
       ({ st with smp := some s' },
         "upd ids=" ++ ",".intercalate (s'.phss.map (fun p => toString p.id)) ++ " ~sum=" ++ floatBits s'.summed ++
           " branch=" ++ (if s'.useBoundsBranch then "B" else "P"))
@@ -363,7 +366,7 @@ def step (st : DSt) (ts : List String) : DSt × String :=
     match takeVec rest st.n with
     | some (x, []) =>
       let h := match st.smp with
-        | some s => if st.skind == "direct" then s.hcost x else baseHeuristic st.starts st.goals st.thr x
+        | some s => if st.skind == "direct" then s.hcostG st.restore x else baseHeuristic st.starts st.goals st.thr x
         | none => baseHeuristic st.starts st.goals st.thr x
       match h with
       | some h => (st, "hc ~h=" ++ floatBits h)
@@ -380,7 +383,7 @@ def step (st : DSt) (ts : List String) : DSt × String :=
     match parseFloatBits? c with
     | some c =>
       match st.smp with
-      | some s => (st, "im ~m=" ++ floatBits (s.informedMeasure c) ++ " has=1")
+      | some s => (st, "im ~m=" ++ floatBits (s.informedMeasureG st.restore c) ++ " has=1")
       | none => if st.skind == "" then (st, "bad-op") else (st, "im ~m=" ++ floatBits st.totMeas ++ " has=0")
     | none => (st, "bad-op")
   | "base" :: k :: rest =>
@@ -400,12 +403,12 @@ def step (st : DSt) (ts : List String) : DSt × String :=
     | some _, some c, some s, some vals =>
       if st.kind == "se2" || st.kind == "se3" then supCompound st s "sup" none c vals else
       if st.kind != "rv" || st.skind != "direct" then (st, "bad-op") else
-      let s' := s.update c
+      let s' := s.updateG st.restore c
       if s'.useBoundsBranch then ({ st with smp := some s' }, "sup bounds-branch")
       else if vals.length != s.numIters * (st.n + 3) then (st, "bad-op")
       else
         let ds := drawsOf st.n vals
-        let r := s.sample2 (rvInBounds st.lo st.hi) true c ds (st.cur, ())
+        let r := s.sample2G st.restore st.degfix (rvInBounds st.lo st.hi) true c ds (st.cur, ())
         let o := r.2
         ({ st with smp := some r.1, cur := o.st.1 },
           s!"sup found={if o.found then 1 else 0} used={o.iters} kept=0 ~x={if o.found then vecBits o.st.1 else "-"} inb={if o.found then (if rvInBounds st.lo st.hi o.st then "1" else "0") else "-"}")
@@ -415,12 +418,12 @@ def step (st : DSt) (ts : List String) : DSt × String :=
     | some _, some mc, some c, some s, some vals =>
       if st.kind == "se2" || st.kind == "se3" then supCompound st s "sup3" (some mc) c vals else
       if st.kind != "rv" || st.skind != "direct" then (st, "bad-op") else
-      let s' := s.update c
+      let s' := s.updateG st.restore c
       if s'.useBoundsBranch then ({ st with smp := some s' }, "sup3 bounds-branch")
       else if vals.length != s.numIters * (st.n + 3) then (st, "bad-op")
       else
         let ds := drawsOf st.n vals
-        let r := s.sample3 (rvInBounds st.lo st.hi) true mc c ds (st.cur, ())
+        let r := s.sample3G st.restore st.degfix (rvInBounds st.lo st.hi) true mc c ds (st.cur, ())
         let o := r.2
         let used := ds.length - o.rest.length
         ({ st with smp := some r.1, cur := o.st.1 },
@@ -442,10 +445,10 @@ def step (st : DSt) (ts : List String) : DSt × String :=
       if st.skind == "direct" then
         match st.smp with
         | some s =>
-          let s' := if fin then s.update c else s
+          let s' := if fin then s.updateG st.restore c else s
           if fin && !s'.useBoundsBranch then ({ st with smp := some s' }, "iss phs-branch")
           else
-            let r := s.sample2 (rvInBounds st.lo st.hi) fin c (mkDraws st.q) (st.cur, ())
+            let r := s.sample2G st.restore st.degfix (rvInBounds st.lo st.hi) fin c (mkDraws st.q) (st.cur, ())
             run r.2 { st with smp := some r.1 }
         | none => (st, "bad-op")
       else if st.skind == "rej" then
@@ -457,7 +460,7 @@ def step (st : DSt) (ts : List String) : DSt × String :=
     match parseFloatBits? mc, parseFloatBits? c with
     | some mc, some c =>
       match st.smp with
-      | some s => (st, "im2 ~m=" ++ floatBits (s.informedMeasure c - s.informedMeasure mc))
+      | some s => (st, "im2 ~m=" ++ floatBits (s.informedMeasureG st.restore c - s.informedMeasureG st.restore mc))
       | none => if st.skind == "" then (st, "bad-op") else (st, "im2 ~m=" ++ floatBits st.totMeas)
     | _, _ => (st, "bad-op")
   | ["osu", c] =>
@@ -516,10 +519,10 @@ def step (st : DSt) (ts : List String) : DSt × String :=
       if st.skind == "direct" then
         match st.smp with
         | some s =>
-          let s' := if fin then s.update c else s
+          let s' := if fin then s.updateG st.restore c else s
           if fin && !s'.useBoundsBranch then ({ st with smp := some s' }, "su phs-branch")
           else
-            let r := s.sample2 (rvInBounds st.lo st.hi) fin c (mkDraws st.q) (st.cur, ())
+            let r := s.sample2G st.restore st.degfix (rvInBounds st.lo st.hi) fin c (mkDraws st.q) (st.cur, ())
             showOut "su" { st with smp := some r.1 } st.q r.2
         | none => (st, "bad-op")
       else if st.skind == "rej" then
@@ -534,10 +537,10 @@ def step (st : DSt) (ts : List String) : DSt × String :=
       if st.skind == "direct" then
         match st.smp with
         | some s =>
-          let s' := if fin then s.update c else s
+          let s' := if fin then s.updateG st.restore c else s
           if fin && !s'.useBoundsBranch then ({ st with smp := some s' }, "su3 phs-branch")
           else
-            let r := s.sample3 (rvInBounds st.lo st.hi) fin mc c (mkDraws st.q) (st.cur, ())
+            let r := s.sample3G st.restore st.degfix (rvInBounds st.lo st.hi) fin mc c (mkDraws st.q) (st.cur, ())
             showOut "su3" { st with smp := some r.1 } st.q r.2
         | none => (st, "bad-op")
       else if st.skind == "rej" then
